@@ -37,6 +37,14 @@ def run(run):
         statics_inventory(run, f)
         if "deadlock-detection" in f.features:
             lock_discipline(run, f)
+            # the wait-for graph must not be left with residue by an actor that panics (incl. the
+            # deliberate deadlock panic): edge <=> guard, guard owned across every suspension point
+            from rules import c15
+            det = deadlock.get(f)
+            if det.body is not None and not det.errors:
+                c15.edge_iff_guard(run, f, det)
+                c15.guard_lives_across_awaits(run, f, det)
+                c15.destructor(run, f, det)
 
 
 def classify_static(f, s):
